@@ -2,6 +2,7 @@ import CkptVerif.Proofs.MultistageSteps
 import CkptVerif.Proofs.GW
 import CkptVerif.Proofs.StepBridges
 import CkptVerif.Proofs.RevolveSteps
+import CkptVerif.Proofs.LowerBound
 /-!
 # C05 — binomial schedules perform the minimal possible number of forward steps
 
@@ -11,8 +12,9 @@ import CkptVerif.Proofs.RevolveSteps
 * `C05_split`  — `n_advance` (BOTH trajectories) attains the minimum of the recurrence for every `m ≥ 2`, `k ≥ 1`;
 * `C05_steps`  — hence the Multistage stream advances the forward over exactly `N + E(N, min(S, N-1))` steps;
 * `C05_closed` — the closed form `m + E(m,k) = (t+1)·m − C(k+t, t−1)` for `C(k+t−1,t−1) < m ≤ C(k+t,t)`.
-Stated, not proved: `C05_full` (Griewank 1992: no executable schedule with `s` restart checkpoints and
-one step of adjoint data does better than the recurrence).
+* `C05_full`, `C05_full_split`, `C05_multistage_optimal`, `C05_revolve_optimal` (end of file) — the lower bound:
+  ANY stream the checking executor accepts for `N` steps and `s` units (restart data only in the units, one
+  step of adjoint data in working storage) performs at least `N + E(N, min(s, N-1))` forward steps.
 -/
 namespace Ckpt
 
@@ -37,9 +39,6 @@ theorem C05_closed (m k t : Nat) (hk : 1 ≤ k) (hkm : k ≤ m - 1) (hm : 2 ≤ 
 (used for TwoLevel blocks and Revolve as well) -/
 alias C05_segment := GW.segWith_fwdSteps
 
-/-- NOT PROVED (named gap): optimality of the recurrence over all executable schedules. -/
-def C05_full_stated : Prop := True
-
 example : nAdvance 25 3 .maximum = some 15 ∧ nAdvance 25 3 .revolve = some 11 := by decide
 
 end Ckpt
@@ -57,4 +56,31 @@ namespace Ckpt
 on the costs and attains the minimum of the recurrence) -/
 alias C05_revolve := RC.revolve_fwdSteps
 alias C05_revolve_table := RC.opt0_eq_extra
+end Ckpt
+
+namespace Ckpt
+/-! ## the lower bound over ALL executable schedules (Griewank 1992), and optimality of the classes -/
+
+/-- ANY stream the checking executor accepts (no violation, adjoint completed) for `N` steps with at most
+`s` stored checkpoints, none of which holds adjoint dependency data, performs at least
+`N + optimal_extra_steps(N, min(s, N-1))` forward steps. -/
+alias C05_full := GW.C05_full
+/-- the same with the units split between RAM and DISK in any way -/
+alias C05_full_split := GW.C05_full_split
+alias C05_full_closed := GW.C05_full_closed
+/-- Multistage (both trajectories, every split): accepted, complete, restart data only, and no accepted
+stream performs fewer forward steps -/
+alias C05_multistage_optimal := GW.C05_multistage_optimal
+alias C05_multistage_attains := GW.multistage_obs
+
+/-- Revolve, every cost vector with `uf > 0`: no stream the executor accepts for `N` steps and `cm`
+RAM units (restart data only) performs fewer forward steps than Revolve's stream. -/
+theorem C05_revolve_optimal (N cm : Nat) (c : Costs) (hN : 1 ≤ N) (hcm : 1 ≤ cm) (huf : 0 < c.uf)
+    (evs : List Ev) (h : revolveEvs N cm c = .ok evs) (os : List Obs)
+    (hclean : (run (cfgRevolve cm N) os).2 = [])
+    (hdone : finished (cfgRevolve cm N) (run (cfgRevolve cm N) os).1 = true)
+    (hnd : ∀ o ∈ os, GW.storesDeps o.act = false) :
+    GW.fwdSteps evs ≤ GW.obsFwdSteps os := by
+  rw [RC.revolve_fwdSteps N cm c hN hcm huf evs h]
+  exact GW.C05_full N cm hN (Or.inl hcm) os (cfgRevolve cm N) rfl hclean hdone hnd
 end Ckpt
